@@ -47,6 +47,8 @@ var c04Bodies = []string{
 	"old auid=1 new auid=2 old ses=3 new ses=4 res=1",
 	strings.Repeat("k=v ", 400),
 	"type=SYSCALL msg=audit(9.009:9): confusing=body",
+	"msg='first' msg=second msg=audit(3.003:3): msg=fourth",
+	"op=x msg=\"a\" res=1 msg=b",
 }
 
 const c04Structural = "(.:)"
@@ -233,7 +235,7 @@ func c04Gen(r *mon.Rand, typ uint16, variant int) *c04Case {
 func init() {
 	register(&mon.CheckSpec{
 		ID: "C04", Level: "exploration",
-		Rule: "cases = generated lines 'type=<name> msg=audit(S.mmm:N): body' for ALL 65536 record type codes (name as the library prints it, upper or lower case; V variants per code), seconds from {0,1,2^31-1,2^31,2^32-1,2^32,2^34-1} and random in [0,2^34), every millisecond value, sequence numbers at the uint32 boundaries and random, 16 hostile bodies (containing msg=, ( ) : . and the well-known key names, non-UTF-8, long) plus random bytes, optional blanks after msg=; for each valid line a sample of single corruptions from a closed list (truncation before ')', structural character removed, letter for a digit, N >= 2^32, unknown type name, msg= missing) must be rejected. distinct_nontrivial = distinct generated lines (valid and corrupted) by content.",
+		Rule: "cases = generated lines 'type=<name> msg=audit(S.mmm:N): body' for ALL 65536 record type codes (name as the library prints it, upper or lower case; V variants per code), seconds from {0,1,2^31-1,2^31,2^32-1,2^32,2^34-1} and random in [0,2^34), every millisecond value, sequence numbers at the uint32 boundaries and random, 18 hostile bodies (containing msg=, ( ) : . and the well-known key names, non-UTF-8, long) plus random bytes, optional blanks after msg=; for each valid line a sample of single corruptions from a closed list (truncation before ')', structural character removed, letter for a digit, N >= 2^32, unknown type name, msg= missing) must be rejected. distinct_nontrivial = distinct generated lines (valid and corrupted) by content.",
 		Assumptions: []string{
 			"type names are printed with the library's own AuditMessageType.String(); name->number->name consistency of that table is C20's subject",
 			"@timestamp is accepted in Go's default time format or RFC3339 as long as it denotes the header's instant",
